@@ -45,7 +45,7 @@ def judge(job):
     def viol(sig, msg):
         res["viol"].append((sig, "%s\noptions on: %s, eliminable_variable_expression=%r\n%s" % (msg, list(on), eve, text), case))
 
-    orig_coords = ["s", "der(s)", "u"] + spec.unknowns()
+    orig_coords = (["u"] if isinstance(spec, S.PureSpec) else ["s", "der(s)", "u"]) + spec.unknowns()
     try:
         cs = S.coords(model)
         vals, recorded = S.param_values(model)
@@ -254,7 +254,8 @@ def run_with(ctx, judge_fn, rule_tail, anchored=True):
             "shift / constant forms over the ordered pairs of k = 2 (thorough: 3 with all forms; quick: 3 with the two plain alias forms) "
             "unknowns -- alias cycles with inconsistent signs, mutually defined unknowns -- in source and reversed order. (E) models of (A) "
             "in source order with an initial equation (s = 2 * p; a_n = 7 * s + u): DAE + initial equations are compared as one system. "
-            "(F, C14 only) systems that need not be square: every set of 2..3 plain alias equations tying two unknowns to the state, the "
+            "(G) purely algebraic models: 1-3 unknowns tied to the input by a chain of signed alias equations, with an initial equation over the "
+            "last one (alias detection empties the equation list). (F, C14 only) systems that need not be square: every set of 2..3 plain alias equations tying two unknowns to the state, the "
             "input or each other with either sign (redundant, contradictory, over-determining), exact comparison only. "
             "'core' = 10 named sets (default, each eliminating pass alone, all-on and its neighbours) on everything else, except that in the quick tier the non-source, non-reversed orders of (A) and the non-core pairs of (B) use 'perm' = the 5 of them that eliminate (detect_aliases, eliminate_constant_assignments, eliminable a.*, all-on with a.*, all-on without reduce_affine). " % len(S.FORMS) + rule_tail,
         }
